@@ -5108,6 +5108,11 @@ class DecRule:
             return self.roaffine
         else:
             if self.depend is not None:
+                num_rand = self.model.sup_model.vars[-1].last
+                if self.depend.shape[1] < num_rand:
+                    extra = np.zeros((self.size, num_rand - self.depend.shape[1]),
+                                     dtype=int)
+                    self.depend = np.concatenate((self.depend, extra), axis=1)
                 num_ones = self.depend.sum()
                 var_coeff = self.model.dvar(num_ones)
                 self.var_coeff = var_coeff
